@@ -32,7 +32,15 @@ RULE = ('every (prior table contents, source table, fault position in {none, hea
         'DatabaseError/OperationalError/IntegrityError/ProgrammingError/InterfaceError raised BY THE SOURCE) x '
         'source style (restartable table, one-shot generator that is finished after raising, class-based '
         'iterator that would go on delivering the remaining rows after raising, failing table behind a petl '
-        'view).  After a source failure the call must also not return normally with a changed table pending on '
+        'view).  Long-source boundary sweep: sources of 1000 / 1001 / 2500 generated rows failing just before / '
+        'at / after every boundary in {10, 16, 32, 50, 64, 100, 128, 200, 250, 256, 500, 512, 1000, 1024, 2000, '
+        '2048} and at exhaustion (thorough: EVERY fault position of a 2100-row source, plus 10001 rows with '
+        'boundaries up to 10000), so that a load committing per batch is seen whatever the batch size.  '
+        'Read events: after a load (and, in the sequence space, after every load of a sequence) petl reads are '
+        'run through the same handle and through the handle\'s connection - full and abandoned-after-one-row '
+        'fromdb passes over the loaded table and over another table - after which a fresh connection and the '
+        'caller\'s connection must both still see what they saw before the read (no petl read may commit or '
+        'roll back).  After a source failure the call must also not return normally with a changed table pending on '
         'the caller\'s connection (a swallowed failure presented as a completed load).  A case is non-trivial when '
         'committing at the wrong moment would be visible: the source fails after the load has already changed '
         'the pending table (rows deleted by todb or >=1 row inserted), or commit=False with a changed pending '
@@ -90,9 +98,12 @@ def setup(tier, seed):
 
 
 def bounds(tier, seed):
-    return {'fault_space_max_rows': 4 if tier == 'thorough' else 3, 'fault_row_alphabet': len(_R3),
+    return {'fault_space_max_rows': 4 if tier == 'thorough' else 3, 'fault_space_max_rows_behind_view': 4 if tier == 'thorough' else 2, 'fault_row_alphabet': len(_R3),
             'exception_kinds': list(EXC_KINDS), 'source_styles': list(SRC_STYLES),
-            'exception_space_max_rows': 3 if tier == 'thorough' else 2,
+            'exception_space_max_rows': 3 if tier == 'thorough' else 1,
+            'long_source_rows': [n for n, _ in _long_plan(tier)],
+            'long_source_fault_positions': [len(f) for _, f in _long_plan(tier)],
+            'read_events': ['%s/%s/%s' % e for e in READ_EVENTS],
             'roundtrip_cells': len(_CELLS), 'roundtrip_max_rows': 2,
             'consecutive_loads': 3 if tier == 'thorough' else 2,
             'two_load_max_rows': 2 if tier == 'thorough' else 1, 'three_load_max_rows': 1,
@@ -117,6 +128,14 @@ def items(tier, seed):
         for op in OPS:
             for commit in (True, False):
                 out.append(('exc', h, op, commit))
+                out.append(('reads', h, op, commit))
+    for h in hs:
+        for op in OPS:
+            for commit in (True, False):
+                for li in range(len(_long_plan(tier))):
+                    if _long_plan(tier)[li][0] > 3000 and (HANDLES[h][1] != 'legacy' or not commit):
+                        continue        # the exhaustive / very long sweeps: legacy handles, commit=True only
+                    out.append(('long', h, op, commit, li))
     for h in hs:
         for op in OPS:
             for commit in (True, False):
@@ -125,15 +144,50 @@ def items(tier, seed):
             out.append(('hostile', h, op))
     seqs, seq3 = [], []
     for h in hs:
-        betweens = ('none',) if HANDLES[h][0] == 'filename' else ('none', 'rollback')
+        betweens = ('none', 'reads') if HANDLES[h][0] == 'filename' else ('none', 'rollback', 'reads')
         for between in betweens:
+            if between == 'reads' and tier != 'thorough' and HANDLES[h][1] != 'legacy':
+                continue
             for ops in itertools.product(OPS, repeat=2):
                 for commits in itertools.product((True, False), repeat=2):
                     seqs.append(('seq', h, between, ops, commits))
-            if tier == 'thorough':
+            if tier == 'thorough' and between != 'reads':
                 for ops in itertools.product(OPS, repeat=3):
                     seq3.append(('seq3', h, between, ops))
     return out + seqs + seq3
+
+
+BOUNDARIES = (10, 16, 32, 50, 64, 100, 128, 200, 250, 256, 500, 512, 1000, 1024, 2000, 2048)
+BOUNDARIES_LONG = BOUNDARIES + (2500, 4096, 5000, 8192, 10000)
+
+# read events: (extent, table, reader)
+READ_EVENTS = [(x, t, r) for r in ('handle', 'connection') for t in ('same', 'other') for x in ('full', 'partial')]
+SEQ_READS = [('full', 'same', 'handle'), ('full', 'same', 'connection'), ('partial', 'other', 'connection'),
+             ('full', 'other', 'connection')]
+
+
+def _around(n, boundaries):
+    """Fault positions of an n-row source just before / at / after each boundary (B-1, B, B+1 rows delivered)
+    and at exhaustion."""
+    pos = set([n + 1])
+    for b in boundaries:
+        for f in (b, b + 1, b + 2):
+            if 1 <= f <= n + 1:
+                pos.add(f)
+    return sorted(pos)
+
+
+def _long_plan(tier):
+    """[(number of rows, fault positions)] of the long-source sweep."""
+    plan = [(1000, _around(1000, BOUNDARIES)), (1001, _around(1001, BOUNDARIES)), (2500, _around(2500, BOUNDARIES))]
+    if tier == 'thorough':
+        plan.append((2100, list(range(1, 2102))))                       # every position
+        plan.append((10001, _around(10001, BOUNDARIES_LONG)))
+    return plan
+
+
+def _long_rows(n):
+    return [(1000000 + i, 'r%d' % i) for i in range(n)]
 
 
 def _fault_positions(n, with_none):
@@ -159,7 +213,7 @@ def cases_of(item, tier):
                         yield c
     elif kind == 'fault':
         _, _, op, commit, src = item
-        nmax = 4 if tier == 'thorough' else 3
+        nmax = 4 if tier == 'thorough' else (3 if src == 'raw' else 2)
         for n in range(0, nmax + 1):
             for tbl in itertools.product(_R3, repeat=n):
                 for fault in _fault_positions(n, False):
@@ -171,7 +225,7 @@ def cases_of(item, tier):
                         yield c
     elif kind == 'exc':
         _, _, op, commit = item
-        nmax = 3 if tier == 'thorough' else 2
+        nmax = 3 if tier == 'thorough' else 1
         priors = _PRIORS[::-1] if tier == 'thorough' else _PRIORS[1:]
         for n in range(0, nmax + 1):
             rows = (_SEQROWS[0] + _SEQROWS[1])[:n]
@@ -186,6 +240,31 @@ def cases_of(item, tier):
                             c['steps'] = [{'op': op, 'commit': commit, 'header': ('a', 'b'), 'rows': rows,
                                            'fault': fault, 'src': src, 'exc': exc}]
                             yield c
+    elif kind == 'long':
+        _, _, op, commit, li = item
+        n, faults = _long_plan(tier)[li]
+        for fault in faults:
+            c = dict(base)
+            c['prior'] = _PRIORS[1]
+            c['steps'] = [{'op': op, 'commit': commit, 'header': ('a', 'b'), 'nrows': n,
+                           'fault': fault, 'src': 'raw'}]
+            yield c
+    elif kind == 'reads':
+        _, _, op, commit = item
+        evsets = [[e] for e in READ_EVENTS]
+        if tier == 'thorough':
+            evsets += [list(p) for p in itertools.permutations(READ_EVENTS, 2)]
+        for n in range(0, 3):
+            rows = (_SEQROWS[0] + _SEQROWS[1])[:n]
+            for fault in _fault_positions(n, True):
+                for evs in evsets:
+                    if handle == 'filename' and any(e[2] == 'connection' for e in evs):
+                        continue        # no caller connection; 'handle' reads go through the file name
+                    c = dict(base)
+                    c['prior'] = _PRIORS[1]
+                    c['steps'] = [{'op': op, 'commit': commit, 'header': ('a', 'b'), 'rows': rows,
+                                   'fault': fault, 'src': 'raw', 'reads': evs}]
+                    yield c
     elif kind == 'hostile':
         _, _, op = item
         for n in range(0, 3 if tier == 'thorough' else 2):
@@ -228,6 +307,9 @@ def cases_of(item, tier):
                         rows = (_SEQROWS[j] + _R3)[:n]
                         steps.append({'op': ops[j], 'commit': commits[j], 'header': ('a', 'b'),
                                       'rows': rows, 'fault': f, 'src': 'raw'})
+                        if between == 'reads':
+                            steps[-1]['reads'] = [e for e in SEQ_READS
+                                                  if not (handle == 'filename' and e[2] == 'connection')]
                     c['steps'] = steps
                     yield c
     else:
@@ -338,15 +420,47 @@ class FailingIterator(object):
         return self.items[pos]
 
 
+def _rows(step):
+    """Data rows of a step: listed explicitly, or generated (long sources: 'nrows')."""
+    if 'rows' in step:
+        return step['rows']
+    return _long_rows(step['nrows'])
+
+
+def _show(rows):
+    """ref.show, abbreviated for long tables."""
+    rows = ref.show(rows)
+    if len(rows) <= 12:
+        return rows
+    return {'number of rows': len(rows), 'first': rows[:3], 'last': rows[-3:]}
+
+
+OTHER_TABLE = ('u', [(7, 'seven'), (8, None)])
+
+
+def _read_event(ev, handle, conn, path, tname):
+    """One petl read: (extent, table, reader).  Returns the rows read (full) or None."""
+    extent, table, reader = ev
+    target = handle if (reader == 'handle' or conn is None) else conn
+    view = etl.fromdb(target, 'SELECT * FROM %s' % _q(tname if table == 'same' else OTHER_TABLE[0]))
+    if extent == 'full':
+        return [tuple(r) for r in list(view)[1:]]
+    it = iter(view)
+    next(it)             # header
+    next(it, None)       # first row, if any
+    del it               # abandoned
+    return None
+
+
 def _source(step, cols):
     actual = tuple(cols[LOGICAL.index(h)] for h in step['header'])
     exc = step.get('exc', 'Boom')
     style = step['src']
     if style == 'generator':
-        return _failing_gen(actual, step['rows'], step['fault'], exc)
+        return _failing_gen(actual, _rows(step), step['fault'], exc)
     if style == 'iterator':
-        return FailingIterator(actual, step['rows'], step['fault'], exc)
-    src = FailingSource(actual, step['rows'], step['fault'], exc)
+        return FailingIterator(actual, _rows(step), step['fault'], exc)
+    src = FailingSource(actual, _rows(step), step['fault'], exc)
     if style == 'view':
         return etl.convert(src, actual[0], _ident)
     if style != 'raw':
@@ -375,6 +489,8 @@ def run_case(case, counts=None):
         c0 = sqlite3.connect(path)
         c0.execute('CREATE TABLE %s (%s)' % (_q(tname), ', '.join(_q(c) for c in cols)))
         c0.executemany('INSERT INTO %s VALUES (?, ?)' % _q(tname), case['prior'])
+        c0.execute('CREATE TABLE %s (k, v)' % _q(OTHER_TABLE[0]))
+        c0.executemany('INSERT INTO %s VALUES (?, ?)' % _q(OTHER_TABLE[0]), OTHER_TABLE[1])
         c0.commit()
         c0.close()
 
@@ -396,7 +512,7 @@ def run_case(case, counts=None):
         for si, step in enumerate(case['steps']):
             committed_before = _fresh_rows(path, tname, cols)
             view_before = committed_before if owns else conn.execute(_select(tname, cols)).fetchall()
-            rows_canon = ref.canonical(step['header'], step['rows'], LOGICAL)
+            rows_canon = ref.canonical(step['header'], _rows(step), LOGICAL)
             exp_committed, exp_view = ref.expect(step['op'], owns, step['commit'], step['fault'],
                                                  committed_before, view_before, rows_canon)
             fn = etl.todb if step['op'] == 'todb' else etl.appenddb
@@ -421,7 +537,7 @@ def run_case(case, counts=None):
 
             # non-triviality: would a commit at the wrong moment have been visible?
             if step['fault'] is not None:
-                k = ref.delivered(len(step['rows']), step['fault'])
+                k = ref.delivered(len(_rows(step)), step['fault'])
                 changed = step['fault'] != 0 and ((step['op'] == 'todb' and len(view_before) > 0) or k > 0)
             else:
                 changed = ref.bag(ref.load(step['op'], view_before, rows_canon)) != ref.bag(committed_before)
@@ -441,8 +557,8 @@ def run_case(case, counts=None):
                     sig = 'a fresh connection sees changes although commit=False'
                 else:
                     sig = 'a fresh connection does not see the loaded table after a completed load'
-                problems.append((_sig_group(step, case, sig), si, ref.show(exp_committed),
-                                 ref.show(committed_after),
+                problems.append((_sig_group(step, case, sig), si, _show(exp_committed),
+                                 _show(committed_after),
                                  'load %d: %s(commit=%s) fault position %r%s: committed table differs%s'
                                  % (si + 1, step['op'], step['commit'], step['fault'],
                                     (' (source raises %s, style %s)' % (step.get('exc', 'Boom'), step['src']))
@@ -457,8 +573,8 @@ def run_case(case, counts=None):
                 if ref.bag(view_after) != ref.bag(view_before):
                     problems.append((_sig_group(step, case, 'returned normally although the source failed, '
                                                             'leaving a changed table on the caller\'s connection'),
-                                     si, {'raises': True, 'or table on the connection': ref.show(view_before)},
-                                     {'raises': False, 'table on the connection': ref.show(view_after)},
+                                     si, {'raises': True, 'or table on the connection': _show(view_before)},
+                                     {'raises': False, 'table on the connection': _show(view_after)},
                                      'load %d: %s(commit=%s) fault position %r (%s): failure swallowed'
                                      % (si + 1, step['op'], step['commit'], step['fault'],
                                         step.get('exc', 'Boom'))))
@@ -480,6 +596,49 @@ def run_case(case, counts=None):
                                      [tuple(cols)] + ref.show(exp_view),
                                      obs if obs is not None else [got_hdr] + ref.show(got_rows),
                                      'load %d: fromdb after %s(commit=%s)' % (si + 1, step['op'], step['commit'])))
+            # follow-up read events: no petl read may commit or roll back
+            for ev in step.get('reads', ()):
+                ev = tuple(ev)
+                c_before = _fresh_rows(path, tname, cols)
+                v_before = c_before if owns else conn.execute(_select(tname, cols)).fetchall()
+                bump('transitions')
+                bump('evals')
+                try:
+                    got = _read_event(ev, handle, conn, path, tname)
+                    err = None
+                except Exception as e:
+                    got, err = None, '%s: %s' % (type(e).__name__, str(e)[:200])
+                c_after = _fresh_rows(path, tname, cols)
+                v_after = c_after if owns else conn.execute(_select(tname, cols)).fetchall()
+                counts['reads'] = counts.get('reads', 0) + 1
+                if ref.bag(v_before) != ref.bag(c_before):
+                    counts['nontrivial_read'] = True       # something was pending while petl read
+                evname = '%s read of %s table via %s' % (ev[0], ev[1], 'the handle' if ev[2] == 'handle'
+                                                         else "the handle's connection")
+                if err is not None:
+                    problems.append((_sig_group(step, case, 'fromdb after the load raised'), si,
+                                     'rows', err, 'load %d: %s' % (si + 1, evname)))
+                    continue
+                if ref.bag(c_after) != ref.bag(c_before):
+                    problems.append((_sig_group(step, case, 'a fromdb read changed what a fresh connection sees '
+                                                            '(read committed pending work)'), si,
+                                     _show(c_before), _show(c_after),
+                                     'load %d (%s, commit=%s, fault %r) then %s'
+                                     % (si + 1, step['op'], step['commit'], step['fault'], evname)))
+                if ref.bag(v_after) != ref.bag(v_before):
+                    problems.append((_sig_group(step, case, 'a fromdb read changed the pending table on the '
+                                                            'caller\'s connection'), si,
+                                     _show(v_before), _show(v_after),
+                                     'load %d (%s, commit=%s, fault %r) then %s'
+                                     % (si + 1, step['op'], step['commit'], step['fault'], evname)))
+                if got is not None and ev[1] == 'same':
+                    # what a reader through the caller's own connection must see: the connection's view;
+                    # through a file name: the committed table
+                    want = c_before if (owns or conn is None) else v_before
+                    if ref.bag(got) != ref.bag(want):
+                        problems.append((_sig_group(step, case, 'fromdb after the load does not return the table '
+                                                                'as the connection sees it'), si,
+                                         _show(want), _show(got), 'load %d then %s' % (si + 1, evname)))
             if case['between'] == 'rollback' and conn is not None and si + 1 < len(case['steps']):
                 conn.rollback()
     finally:
@@ -513,6 +672,12 @@ def run_item(item, acc):
         acc.transitions += counts.get('transitions', 0)
         if counts.get('nontrivial_step'):
             acc.nontrivial += 1
+        if counts.get('reads'):
+            acc.counters['read events'] += counts['reads']
+            if counts.get('nontrivial_read'):
+                acc.counters['read events:cases with work pending on the connection while petl read'] += 1
+        if any('nrows' in st for st in case['steps']):
+            acc.counters['long-source loads'] += 1
         if counts.get('info_pending_of_failed_load_committed_later'):
             acc.counters['info:pending rows of a failed load committed by a later load on the same caller '
                          'connection (no rollback in between; accepted)'] += 1
@@ -549,6 +714,9 @@ def vacuity(cov, tier):
             for k in ('fault', 'complete'):
                 if not c.get('%s:%s:%s' % (op, h, k)):
                     bad.append('no %s load via %s handle with outcome class %s' % (op, h, k))
+    for k in ('read events:cases with work pending on the connection while petl read', 'long-source loads'):
+        if not c.get(k):
+            bad.append('no case counted under %r' % k)
     for e in EXC_KINDS:
         if not c.get('source raises:%s' % e):
             bad.append('no failing load with a source raising %s' % e)
